@@ -48,7 +48,8 @@ func gen(r *hx.Rng) qcase {
 	var c qcase
 	c.Setup = append(c.Setup,
 		"create table t (pk int primary key, a int, b int, s varchar(10), u int)",
-		"create table r (id int primary key, a int, k int, s varchar(10))")
+		"create table r (id int primary key, a int, k int, s varchar(10))",
+		"create table m (pk int primary key, a int, b int, c int)")
 	np := hx.Pick(r, []int{10, 30, 50})
 	n := r.Range(5, 40)
 	var rows []string
@@ -62,8 +63,15 @@ func gen(r *hx.Rng) qcase {
 		rows = append(rows, fmt.Sprintf("(%d,%s,%s,%s)", i, ival(r, np), ival(r, np), sval(r, np)))
 	}
 	c.Setup = append(c.Setup, "insert into r values "+strings.Join(rows, ","))
+	// m: all-integer columns, few distinct prefixes, NULL and non-NULL under every prefix
+	rows = nil
+	for i, mm := 0, r.Range(6, 30); i < mm; i++ {
+		rows = append(rows, fmt.Sprintf("(%d,%s,%s,%s)", i, hx.Pick(r, []string{"0", "1", "1", "2", "NULL"}), hx.Pick(r, []string{"NULL", "NULL", "0", "1", "5"}), hx.Pick(r, []string{"NULL", "0", "7"})))
+	}
+	c.Setup = append(c.Setup, "insert into m values "+strings.Join(rows, ","))
 	c.Indexes = []string{"create index ia on t (a)", "create index iab on t (a, b)", "create index isx on t (s)", "create unique index iu on t (u)",
-		"create index ra on r (a)", "create index rk on r (k, a)", "create index rs on r (s)"}
+		"create index ra on r (a)", "create index rk on r (k, a)", "create index rs on r (s)",
+		"create index mab on m (a, b)", "create index mabc on m (b, a, c)"}
 
 	atom := func(tbl string) string {
 		col := hx.Pick(r, []string{"a", "b", "pk", "u"})
@@ -100,6 +108,19 @@ func gen(r *hx.Rng) qcase {
 			p = "not " + p
 		}
 		return p
+	}
+	// exact prefix + IS [NOT] NULL on the last column of an all-integer index, also under count(*)
+	for i := 0; i < 6; i++ {
+		k := hx.Pick(r, []string{"0", "1", "2"})
+		nn := hx.Pick(r, []string{"is null", "is not null"})
+		switch i % 3 {
+		case 0:
+			c.Queries = append(c.Queries, fmt.Sprintf("select * from m where a = %s and b %s", k, nn))
+		case 1:
+			c.Queries = append(c.Queries, fmt.Sprintf("select count(*) from m where a = %s and b %s", k, nn))
+		default:
+			c.Queries = append(c.Queries, fmt.Sprintf("select pk from m where b = %s and a = %s and c %s", hx.Pick(r, []string{"0", "1", "5"}), k, nn))
+		}
 	}
 	for i := 0; i < 24; i++ {
 		var q string
